@@ -3,16 +3,23 @@
 TRUSTED_BASE = [
     "Lean 4.33.0 kernel (theorems are re-checked by `lake build`; leanchecker in the thorough tier)",
     "axioms: propext, Classical.choice, Quot.sound only (audited with #print axioms on every property theorem); no native_decide, no bv_decide, no sorry/admit/axiom (grep on every run)",
-    "Lean compiler + C toolchain + GMP for the executable judge (its definitions are the ones the theorems are about; compilation is trusted)",
+    "Lean compiler + C toolchain + GMP for the executable judges (their definitions are the ones the theorems are about; compilation is trusted)",
+    "translate/ (the syn-based Rust -> Lean translator regenerating DecGen/Code.lean, Code2.lean on every run) and DecModel/RustPrelude.lean (machine words, casts, table access, the exact IEEE binary32/64 model): trusted as a reading of Rust semantics, and CHECKED on every run by recomputing every observation with the translated source (`corr translated-code`)",
     "the Rust harness (transport and generation only; it never compares), rustc, this machine",
-    "bin/check (classification against known_findings.json), bin/gen_decgen (table dump through the cfg hook; two regex scrapers)",
+    "bin/check (classification against known_findings.json), bin/gen_decgen (table dump through the cfg hook; regex scrapers for the dispatch of d128.rs, the entry-point inventory and the status-word reads)",
     "DecModel/* as a reading of IEEE 754-2008 and of the property statements",
 ]
 
 MODELLED_NOT_VERIFIED = (
-    "The theorems are about the hand-written Lean model (DecModel/*). The control flow and 64-bit word arithmetic of the "
-    "bid128_* routines are not translated; their agreement with the model is established by the differential correspondence "
-    "counted in this file (real API in-process -> observation lines -> Lean judge, bit for bit including flags), and by nothing else. "
+    "Three layers, see DESIGN.md section 6 for which clause of this property sits where. (P) theorems about the hand-written "
+    "spec-level model DecModel/*: tied to the code only by the differential correspondence counted in this file (real API "
+    "in-process -> observation lines -> Lean judge, bit for bit including flags). (H) theorems about hand-written code-shaped "
+    "models (text scanner, numeric phase, formatter, binary conversion, helper routines): tied by exact-outcome correspondence "
+    "verdicts on every observation. (G) theorems about Dec.Gen.Code.* / Code2.*, the Lean translation of 222 of the 236 "
+    "functions of src/bid*.rs plus 11 trait-glue methods of d128.rs, regenerated from /repo/src on every run: there the source "
+    "text itself is what is proved about, modulo the translator and the prelude, which are checked by recomputing every observation. "
+    "Not translated: bid128_from_string (+ its _clear_status wrapper), bid128_to_string and its six digit-group helpers, bid128_nan "
+    "(String / char handling; covered by H models), two unused big-endian variants, a Default impl and the cfg hook. "
     "Constant tables are re-extracted from the compiled crate on every run and checked against closed forms by the kernel."
 )
 
@@ -132,6 +139,8 @@ for _pid in ("C01", "C02"):
     PROPS[_pid]["theorem_modules"] = PROPS[_pid]["theorem_modules"] + ["DecProofs.Properties.C01GenAdd"]
 
 PROPS["C02"]["theorem_modules"] = PROPS["C02"]["theorem_modules"] + ["DecProofs.Properties.C02GenFmaSwap"]
+
+PROPS["C07"]["static_modules"] = PROPS["C07"]["static_modules"] + ["DecProofs.Static.Translated2"]
 
 # secondary build configuration of C02 (thorough tier): the tininess-after-rounding cargo feature
 PROPS["C02"]["feature_configs"] = [{"feature": "tiny_after", "judge_tiny_after": True}]
